@@ -713,3 +713,52 @@ M2('c05-k2-sse-emitter-check-helper-only-warns', 'C05', 'R10', [
      'new': "def _require_async_iterable(sse_emitter):\n    if isasyncgenfunction(sse_emitter):\n        falcon._logger.warning('Response.sse must be an async iterable')\n\n\nclass App(falcon.app.App):\n"}])
 M('c05-k2-sse-ctor-type-test-local-also-tests-the-value', 'C05', 'R13', SSEV, _SSE_RETRY,
   "        retry_ok = retry is None or (isinstance(retry, int) and retry > 0)\n        if not retry_ok:\n            raise TypeError('retry must be an int')\n")
+# k3: the media rendering extracted into a same-class helper (k2-c12-2 `_render_media`, k1-c12-1 `_serialize_media`) is read
+# through the helper by R3 / R11 -- refactoring + break
+_RB_RENDER = """                if self._media_rendered is _UNSET:
+                    if not self.content_type:
+                        self.content_type = self.options.default_media_type
+
+                    handler, _, _ = self.options.media_handlers._resolve(
+                        self.content_type, self.options.default_media_type
+                    )
+
+                    self._media_rendered = handler.serialize(
+                        self._media, self.content_type
+                    )
+
+                data = self._media_rendered
+"""
+_RB_REPR = "    def __repr__(self) -> str:\n        return f'<{self.__class__.__name__}: {self.status}>'\n"
+_RB_HELPER_HEAD = """    def _render_media(self):
+        if not self.content_type:
+            self.content_type = self.options.default_media_type
+
+        handler, _, _ = self.options.media_handlers._resolve(
+            self.content_type, self.options.default_media_type
+        )
+
+"""
+M2('c05-k3-render-media-helper-under-the-guard-never-stores', 'C05', 'R11', [
+    {'file': RSP, 'old': _RB_RENDER,
+     'new': "                if self._media_rendered is _UNSET:\n                    self._render_media()\n\n                data = self._media_rendered\n"},
+    {'file': RSP, 'old': _RB_REPR,
+     'new': _RB_HELPER_HEAD + "        return handler.serialize(self._media, self.content_type)\n\n" + _RB_REPR}],
+   also=('C12',))
+M2('c05-k3-render-media-helper-guards-and-stores-on-one-arm-only', 'C05', 'R11', [
+    {'file': RSP, 'old': _RB_RENDER, 'new': "                data = self._render_media()\n"},
+    {'file': RSP, 'old': _RB_REPR,
+     'new': "    def _render_media(self):\n        if self._media_rendered is _UNSET:\n            handler, _, _ = self.options.media_handlers._resolve(\n"
+            "                self.content_type, self.options.default_media_type\n            )\n            if self.content_type:\n"
+            "                self._media_rendered = handler.serialize(self._media, self.content_type)\n\n        return self._media_rendered\n\n" + _RB_REPR}],
+   also=('C12',))
+M2('c05-k3-render-media-helper-called-without-the-data-test', 'C05', 'R3', [
+    {'file': RSP, 'old': "            if data is None and self._media is not None:\n", 'new': "            if self._media is not None:\n"},
+    {'file': RSP, 'old': _RB_RENDER, 'new': "                data = self._render_media()\n"},
+    {'file': RSP, 'old': _RB_REPR,
+     'new': "    def _render_media(self):\n        if self._media_rendered is _UNSET:\n            if not self.content_type:\n"
+            "                self.content_type = self.options.default_media_type\n\n"
+            "            handler, _, _ = self.options.media_handlers._resolve(\n"
+            "                self.content_type, self.options.default_media_type\n            )\n\n"
+            + "            self._media_rendered = handler.serialize(self._media, self.content_type)\n\n        return self._media_rendered\n\n" + _RB_REPR}],
+   also=('C12',))
